@@ -52,6 +52,15 @@ func strLit(e ast.Expr) (string, bool) {
 	return s, err == nil
 }
 
+// leanBytes renders a Go string as a Lean `List UInt8` literal (kernel-reducible, unlike `String.toUTF8`).
+func leanBytes(s string) string {
+	parts := make([]string, len(s))
+	for i := 0; i < len(s); i++ {
+		parts[i] = strconv.Itoa(int(s[i]))
+	}
+	return "[" + strings.Join(parts, ", ") + "]"
+}
+
 func main() {
 	lib.Main(func(g *lib.Gen) {
 		var b strings.Builder
@@ -134,6 +143,7 @@ func main() {
 		sort.Slice(gates, func(i, j int) bool { return gates[i].name < gates[j].name })
 		b.WriteString("/-! " + ffile + " -/\n")
 		fmt.Fprintf(&b, "def featureGateAnnotationKey : String := %q\n", annKey)
+		fmt.Fprintf(&b, "def featureGateAnnotationKeyB : List UInt8 := %s\n", leanBytes(annKey))
 		b.WriteString("/-- (name, default, pre-release stage) of every gate registered by the project, sorted by name -/\n")
 		b.WriteString("def knownGates : List (String × Bool × String) := [")
 		for i, gt := range gates {
@@ -148,6 +158,7 @@ func main() {
 			lib.Fatalf("features.GlobalRateLimiter not found")
 		}
 		fmt.Fprintf(&b, "def globalRateLimiterGate : String := %q\n", grl)
+		fmt.Fprintf(&b, "def globalRateLimiterGateB : List UInt8 := %s\n", leanBytes(grl))
 
 		// ---- clusterinfo.go
 		const cfile = "pkg/clusters/clusterinfo.go"
@@ -228,6 +239,7 @@ func main() {
 			}
 			s, _ := strconv.Unquote(v.ExactString())
 			fmt.Fprintf(&b, "def %s : String := %q\n", strings.ToLower(n[:1])+n[1:], s)
+			fmt.Fprintf(&b, "def %sB : List UInt8 := %s\n", strings.ToLower(n[:1])+n[1:], leanBytes(s))
 		}
 		// name of DefaultFlowControl
 		flf := g.ParseFile(flfile)
@@ -251,6 +263,33 @@ func main() {
 			lib.Fatalf("DefaultFlowControl name not found")
 		}
 		fmt.Fprintf(&b, "def defaultFlowControlName : String := %q\n", defName)
+		fmt.Fprintf(&b, "def defaultFlowControlNameB : List UInt8 := %s\n", leanBytes(defName))
+
+		// ---- log modes (pkg/apis/proxy/v1alpha1/upstreamcluster_types.go)
+		const tfile = "pkg/apis/proxy/v1alpha1/upstreamcluster_types.go"
+		tf := g.ParseFile(tfile)
+		logConst := map[string]string{}
+		ast.Inspect(tf, func(n ast.Node) bool {
+			vs, ok := n.(*ast.ValueSpec)
+			if !ok {
+				return true
+			}
+			for i, nm := range vs.Names {
+				if i < len(vs.Values) {
+					if s, ok := strLit(vs.Values[i]); ok {
+						logConst[nm.Name] = s
+					}
+				}
+			}
+			return true
+		})
+		for _, n := range []string{"LogOn", "LogOff"} {
+			s, ok := logConst[n]
+			if !ok || s == "" {
+				lib.Fatalf("constant %s not found in %s", n, tfile)
+			}
+			fmt.Fprintf(&b, "def %sB : List UInt8 := %s\n", strings.ToLower(n[:1])+n[1:], leanBytes(s))
+		}
 
 		// ---- upstream_controller.go
 		const ufile = "pkg/gateway/controllers/upstream_controller.go"
